@@ -194,6 +194,7 @@ func implPairs(h caseHead) map[string]any {
 
 var implOps = map[string]func(h caseHead, raw []byte) map[string]any{
 	"c01":    func(h caseHead, raw []byte) map[string]any { return implPairs(h) },
+	"c01y": func(h caseHead, raw []byte) map[string]any { return implPairs(h) }, // same real run; the model side reads the YAML tree instead of the abstract case
 	"c02":    func(h caseHead, raw []byte) map[string]any { return implC02(h) },
 	"pipe":   implPipe,
 	"fuzz":   implFuzz,
